@@ -1,41 +1,62 @@
 ---- MODULE Consensus ----
 (* The node-local DPoVP engine: chain/consensus/{dpovp,stable_manager,fork_manager,confirmer,validator}.go over
    store.ChainDatabase's unconfirmed tree.  One action per engine entry point (each runs under chainLock).
-   Blocks are 1..NB with parent[b] < b (G = 0 is genesis); a smaller hrank stands for a smaller hash.
+   Blocks are 1..NB with parent[b] < b (G = 0 is genesis, or the tip of a stabilised prefix of PL blocks); a smaller
+   hrank stands for a smaller hash.
    A signature is <<signer, variant>>: variant 1 is the s -> n-s re-encoding of the same signer's signature
-   (different bytes, same recovered node); signer ND+1 is a key that is not a deputy.
+   (different bytes, same recovered node); signer Outsider is a key that is a deputy of no term.
    conf[b] is the set of DISTINCT DEPUTIES (other than the miner) whose confirm is stored with b - the
-   property counts nodes, not byte strings. *)
+   property counts nodes, not byte strings.
+
+   TERMS.  The deputies that sign a block are those OF THE BLOCK'S TERM: DepAt(h) / QAt(h) are functions of the
+   block's height (deputynode.Manager.GetDeputiesByHeight(h, true) / TwoThirdDeputyCount(h)).  Heights below
+   TermStart (= TermDuration + InterimDuration + 1) are signed by the genesis deputies DepOld = 1..ND, heights from
+   TermStart on by DepNew, the set elected by the snapshot block at height SnapHeight (= TermDuration); a node knows
+   DepNew once that snapshot block is stable on it.  The defaults below describe a universe with one term; the
+   term configurations override DepNew, TermStart, SnapHeight and PL (cfg: X <- McX) so that the boundary lies
+   inside the block universe: G is then the last block of a fixed stabilised prefix (heights 1..PL) and the explored
+   tree consists of the last block(s) of the old term and the first blocks of the new one.  For a LATER term change
+   (k -> k+1, k >= 1: TermStart = (k+1)*TermDuration + InterimDuration + 1) DepOld is overridden as well: the earlier
+   changes then lie inside the prefix and a former deputy (of neither term) may still sign packets. *)
 EXTENDS Naturals, FiniteSets, TLC
-CONSTANTS NB, ND, Self,         \* Self \in 1..ND (a deputy) or 0 (observer)
+CONSTANTS NB, ND, Self,         \* Self: an identity (a deputy of some term) or 0 (observer)
           Packets               \* the confirm packets (sets of signatures) that may be delivered
 Block == 1..NB
 G == 0
-Dep == 1..ND
-Outsider == ND + 1
-Q == (2 * ND + 2) \div 3        \* ceil(2n/3): IsConfirmEnough / TwoThirdDeputyCount
+DepOld == 1..ND                 \* the term before the boundary (default: the genesis term)
+DepNew == DepOld                \* the term after the boundary (overridden: differs in membership and size)
+TermStart == 1                  \* first height signed by DepNew
+SnapHeight == 0                 \* height of the snapshot block electing DepNew
+PL == 0                         \* height of G
+MinerPool == DepOld \cup DepNew  \* the nodes that mine blocks of the universe (a term configuration may pick one node per class)
+Ident == DepOld \cup DepNew     \* every node that is a deputy of some term
+Outsider == (CHOOSE m \in Ident : \A x \in Ident : x <= m) + 1
+DepAt(h) == IF h < TermStart THEN DepOld ELSE DepNew
+QAt(h) == (2 * Cardinality(DepAt(h)) + 2) \div 3       \* ceil(2n/3): IsConfirmEnough / TwoThirdDeputyCount(height)
 VARIABLES parent, miner, hrank, \* the block universe (chosen once in Init)
           known,                \* blocks in the store (stable chain + unconfirmed tree)
           conf, stable, head, lastSig
 vars == <<parent, miner, hrank, known, conf, stable, head, lastSig>>
 RECURSIVE Anc(_)
 Anc(b) == IF b = G THEN {G} ELSE {b} \cup Anc(parent[b])
-H(b) == Cardinality(Anc(b)) - 1
+H(b) == PL + Cardinality(Anc(b)) - 1
 Signers(sg) == {s[1] : s \in sg}
 Unconf(kn, st) == {b \in kn : st \in Anc(b) /\ b # st}
-Enough(b, c) == Cardinality(c[b] \cup {miner[b]}) >= Q
+Enough(b, c) == Cardinality(c[b] \cup {miner[b]}) >= QAt(H(b))
 Best(S, dflt) == IF S = {} THEN dflt
                  ELSE CHOOSE x \in S : \A y \in S : H(x) > H(y) \/ (H(x) = H(y) /\ hrank[x] <= hrank[y])   \* ChooseNewFork
 Prune(kn, st) == {b \in kn : b \in Anc(st) \/ st \in Anc(b)}                                              \* SetStableBlock
 Init == /\ parent \in {f \in [Block -> Block \cup {G}] : \A b \in Block : f[b] < b}
-        /\ miner \in [Block -> Dep]
+        /\ miner \in {m \in [Block -> Ident] : \A b \in Block : m[b] \in DepAt(H(b)) \cap MinerPool}   \* mined by a deputy of its own term
         /\ hrank = [b \in Block |-> b]
         /\ known = {G} /\ conf = [b \in Block |-> {}] /\ stable = G /\ head = G /\ lastSig = G
-\* Confirmer.needConfirm (the voting lock)
+\* the deputies of height h are known to the node: the snapshot block that elects them is stable (dp.saveSnapshot)
+TermKnown(h) == h < TermStart \/ H(stable) >= SnapHeight
+\* Confirmer.needConfirm (the voting lock): IsSelfDeputyNode(height), TwoThirdDeputyCount(height)
 NeedConfirm(b, c) ==
   LET L == IF H(lastSig) <= H(stable) THEN stable ELSE lastSig IN
-  /\ Self \in Dep /\ ~Enough(b, c)
-  /\ (parent[b] = L \/ H(b) > H(L) + Q)
+  /\ Self \in DepAt(H(b)) /\ ~Enough(b, c)
+  /\ (parent[b] = L \/ H(b) > H(L) + QAt(H(b)))
 NewStable(b, c) == IF H(b) > H(stable) /\ Enough(b, c) THEN b ELSE stable                                 \* StableManager.UpdateStable
 \* ForkManager.UpdateFork
 NewHead(b, kn, st) ==
@@ -43,13 +64,17 @@ NewHead(b, kn, st) ==
   IF head \notin un THEN Best(un, st)
   ELSE IF parent[b] = head THEN b
   ELSE LET cand == Best(un, st) IN
-       IF H(cand) > H(head) /\ (H(cand) - H(st)) % Q = 0 THEN cand ELSE head
+       IF H(cand) > H(head) /\ (H(cand) - H(st)) % QAt(H(cand)) = 0 THEN cand ELSE head
 Insertable(b) == /\ b \notin known /\ H(b) > H(stable)                       \* isIgnorableBlock
                  /\ parent[b] \in Unconf(known, stable) \cup {stable}       \* parent in the store and not pruned
+                 /\ TermKnown(H(b))                                          \* verifySigner: the miner is a deputy of a known term
+\* VerifyNewConfirms: deputies OF THE BLOCK'S TERM only, distinct nodes, not the miner
+\* (TermLag = 1 is the negative control: signers looked up at the parent's height - QuorumOK must then fail at the boundary)
+TermLag == 0
+Valid(b, sg) == (Signers(sg) \cap DepAt(H(b) - TermLag)) \ {miner[b]}
 InsertBlock(b, sg) ==
   /\ Insertable(b)
-  /\ LET valid == (Signers(sg) \cap Dep) \ {miner[b]}       \* VerifyNewConfirms: deputies only, distinct nodes, not the miner
-         c1 == [conf EXCEPT ![b] = valid]
+  /\ LET c1 == [conf EXCEPT ![b] = Valid(b, sg)]
          sign == NeedConfirm(b, c1) /\ Self # miner[b]
          c2 == IF sign THEN [c1 EXCEPT ![b] = @ \cup {Self}] ELSE c1
          st2 == NewStable(b, c2)
@@ -58,11 +83,12 @@ InsertBlock(b, sg) ==
         /\ head' = NewHead(b, kn2, st2)
         /\ lastSig' = IF (sign \/ Self = miner[b]) /\ H(b) > H(lastSig) THEN b ELSE lastSig
   /\ UNCHANGED <<parent, miner, hrank>>
-\* a block that is known, not above the stable block, or whose parent is missing/pruned: refused, nothing changes (C02)
+\* a block that is known, not above the stable block, whose parent is missing/pruned or whose term is not known yet:
+\* refused, nothing changes (C02)
 RejectBlock(b, sg) == ~Insertable(b) /\ UNCHANGED vars
 InsertConfirms(b, sg) ==
   /\ b \in known \ {G} /\ ~Enough(b, conf)
-  /\ LET new == ((Signers(sg) \cap Dep) \ {miner[b]}) \ conf[b] IN
+  /\ LET new == Valid(b, sg) \ conf[b] IN
      /\ new # {}
      /\ LET c2 == [conf EXCEPT ![b] = @ \cup new]
             st2 == NewStable(b, c2)
@@ -74,9 +100,10 @@ InsertConfirms(b, sg) ==
 \* the same deliveries with every signature of the packet relayed twice (byte-identical duplicates inside one list)
 InsertBlockDup(b, sg) == sg # {} /\ InsertBlock(b, sg)
 InsertConfirmsDup(b, sg) == InsertConfirms(b, sg)
-\* confirms that bring nothing new (unknown block, enough already, duplicates, non-deputies, the miner itself)
+\* confirms that bring nothing new (unknown block, enough already, duplicates, nodes that are not deputies of the
+\* block's term - outsiders and deputies of the other term alike -, the miner itself)
 IgnoreConfirms(b, sg) ==
-  /\ (b \notin known \ {G} \/ Enough(b, conf) \/ ((Signers(sg) \cap Dep) \ {miner[b]}) \ conf[b] = {})
+  /\ (b \notin known \ {G} \/ Enough(b, conf) \/ Valid(b, sg) \ conf[b] = {})
   /\ UNCHANGED vars
 Next == \/ \E b \in Block, sg \in Packets \cup {{}} : InsertBlock(b, sg)
         \/ \E b \in Block, sg \in Packets : InsertBlockDup(b, sg)
@@ -86,10 +113,14 @@ Next == \/ \E b \in Block, sg \in Packets \cup {{}} : InsertBlock(b, sg)
         \/ \E b \in Block, sg \in Packets : IgnoreConfirms(b, sg)
 Spec == Init /\ [][Next]_vars
 \* ---- C03 ----
-QuorumOK == stable # G => Cardinality(conf[stable] \cup {miner[stable]}) >= Q
+\* stable only with 2/3 (rounded up) of the deputies OF ITS TERM, distinct nodes, the miner included
+QuorumOK == stable # G => Cardinality((conf[stable] \cap DepAt(H(stable))) \cup {miner[stable]}) >= QAt(H(stable))
 HeadOK == stable \in Anc(head) /\ head \in known
 TreeOK == \A b \in known : b \in Anc(stable) \/ stable \in Anc(b)
 StableChainKept == Anc(stable) \subseteq known
 StableForwardStep == stable \in Anc(stable')
 StableForward == [][StableForwardStep]_vars
+\* only deputies of a block's own term are ever stored as its signers; a block of the next term is held only by a node that knows that term
+ConfTermOK == \A b \in Block : conf[b] \subseteq DepAt(H(b)) /\ miner[b] \in DepAt(H(b))
+TermKnownOK == \A b \in known \ {G} : TermKnown(H(b))
 ====
